@@ -20,11 +20,18 @@ def main():
     log = lambda s: print('[check] ' + s, file=sys.stderr)
     spec = props.PROPS[pid]
     try:
-        fdir, meta = extract.ensure_facts(log, need_corpus=spec.get('corpus', True))
+        if spec.get('facts', True) is False:
+            fdir, meta = None, {'repo_ok': True}
+        else:
+            fdir, meta = extract.ensure_facts(log, need_corpus=spec.get('corpus', True))
         if not meta.get('repo_ok'):
             for e in meta.get('errors', []):
                 sys.stderr.write(e['stderr'][-3000:] + '\n')
             raise core.Broken('/repo does not type-check under the fact extractor')
+        if spec.get('corpus', True) and meta.get('corpus') and not meta.get('corpus_ok'):
+            for e in meta.get('errors', []):
+                sys.stderr.write(e['stderr'][-3000:] + '\n')
+            raise core.Broken('the corpus does not compile against /repo (see stderr)')
         ctx = core.Ctx(fdir, meta, tier, log)
         rep = core.Report(pid)
         extra = spec['run'](ctx, rep) or {}
